@@ -131,7 +131,20 @@ FullAssetFails(W, a) ==
             IN /\ {doc.totals[i][1] : i \in 1..Len(doc.totals)} = holders /\ Len(doc.totals) = Cardinality(holders)
                /\ \A i \in 1..Len(doc.totals) :
                      doc.totals[i][2] = SeqSum(cd.bal, LAMBDA b : IF HolderOf(b[1]) = doc.totals[i][1] THEN b[5] ELSE 0)>>,
-       <<"C13.average_price_shown", doc.avg[1] * cd.ppu[2] = doc.avg[2] * cd.ppu[1]>> })
+       <<"C13.average_price_shown", doc.avg[1] * cd.ppu[2] = doc.avg[2] * cd.ppu[1]>>,
+       \* the same tables under the properties whose figures they carry (each check judges its own clauses)
+       <<"C05.report_shows_long_or_short_of_each_fraction",
+            BagEq(Map(doc.detail, LAMBDA d : <<d.ev, d.lot, d.amt, d.long>>), Map(cd.fr, LAMBDA f : <<f[1], f[2], f[3], f[7]>>))>>,
+       <<"C06.report_summary_equals_yearly_totals", BagEq(doc.summary, cd.yr)>>,
+       <<"C07.report_balances_equal_computed_balances", BagEq(doc.balances, cd.bal)>>,
+       <<"C07.report_holder_totals_add_up",
+            LET holders == {HolderOf(cd.bal[i][1]) : i \in 1..Len(cd.bal)}
+            IN /\ {doc.totals[i][1] : i \in 1..Len(doc.totals)} = holders /\ Len(doc.totals) = Cardinality(holders)
+               /\ \A i \in 1..Len(doc.totals) :
+                     doc.totals[i][2] = SeqSum(cd.bal, LAMBDA b : IF HolderOf(b[1]) = doc.totals[i][1] THEN b[5] ELSE 0)>> })
+     \cup (IF \E q1, q2 \in 1..Len(doc.detail) : doc.detail[q1].long /\ ~doc.detail[q2].long /\ doc.detail[q2].lot # 0 THEN {"W.C05.report_with_long_and_short_fractions"} ELSE {})
+     \cup (IF Len(doc.summary) >= 2 THEN {"W.C06.report_with_several_yearly_lines"} ELSE {})
+     \cup (IF Len(doc.totals) >= 2 \/ Len(doc.balances) >= 2 THEN {"W.C07.report_with_several_accounts"} ELSE {})
      \cup (IF Len(doc.detail) >= 2 THEN {"W.C13.several_fractions"} ELSE {})
      \cup (IF Len(doc.ins) + Len(doc.outs) + Len(doc.intras) < Len(E) THEN {"W.C13.window_hides_transactions"} ELSE {})
      \cup (IF \E i \in 1..Len(doc.ins) : doc.ins[i].hassold /\ doc.ins[i].sold > 0 /\ doc.ins[i].sold < doc.ins[i].amt THEN {"W.C13.partially_sold_lot"} ELSE {})
@@ -145,6 +158,9 @@ FullSharedFails(W, as, sm, lg) ==
          \A k \in 1..Len(as) :
             BagEq(Map(SelectSeq(sm, LAMBDA s : s.asset = as[k].name), LAMBDA s : s.row), as[k].cd.yr)>>,
     <<"C13.summary_sheet_has_no_other_lines", \A i \in 1..Len(sm) : \E k \in 1..Len(as) : sm[i].asset = as[k].name>>,
+    <<"C06.summary_sheet_equals_yearly_totals_of_every_asset",
+         /\ \A k \in 1..Len(as) : BagEq(Map(SelectSeq(sm, LAMBDA s : s.asset = as[k].name), LAMBDA s : s.row), as[k].cd.yr)
+         /\ \A i \in 1..Len(sm) : \E k \in 1..Len(as) : sm[i].asset = as[k].name>>,
     <<"C13.legend_states_the_accounting_methods", MethodsNamed(W.sched, lg.method)>>,
     <<"C13.legend_states_the_date_filters", lg.from \in ToSet(W.fromtxt) /\ lg.to \in ToSet(W.totxt)>> })
 
@@ -220,6 +236,9 @@ TaxReportFails(W, as, tx) ==
             \A k \in 1..Len(as) : BagEq(Map(rowsOf(as[k].name), TaxRowTuple), as[k].cd.fr)>>,
        <<"C14.fraction_labels_k_of_n",
             \A k \in 1..Len(as) : BagEq(Map(rowsOf(as[k].name), TaxRowLabel), as[k].cd.lab)>>,
+       <<"C05.tax_report_shows_long_or_short_of_each_fraction",
+            \A k \in 1..Len(as) : BagEq(Map(rowsOf(as[k].name), LAMBDA r : <<r.ev, r.lot, r.amt, r.long>>),
+                                        Map(as[k].cd.fr, LAMBDA f : <<f[1], f[2], f[3], f[7]>>))>>,
        <<"C14.row_on_the_sheet_of_its_transaction_type",
             \A i \in 1..Len(tx.rows) : LET r == tx.rows[i] IN r.sheet = SheetOf(W.country, TypeOf(EOf(r)[r.ev]))>>,
        <<"C14.transaction_type_and_dates_shown",
